@@ -32,7 +32,8 @@ EXPLANATION = (
     "is reached only past the store of ON (start()/run() refuse before it); R12.7 Node.apply_timestep ticks processes, services, "
     "applications and the file system only on the `operating_state == ON` edge, and every path through the is_resetting edge "
     "clears the flag; every store of OFF (timed in apply_timestep, at once in power_off) is followed on every path by the test of "
-    "is_resetting. NOT decided: "
+    "is_resetting. R12.8 = C13's R13.7 (a lifecycle request is refused only by the node-power guard or its own source-state test) applied here: software comes back up when the node does. "
+    "NOT decided: "
     "the number of ticks spent in BOOTING / SHUTTING_DOWN as an arithmetic fact."
 )
 TECHNIQUE = "static: forward dataflow of the power-state enum over CFGs (transition extraction), must-pass on interface enabling, request-tree validator inventory"
@@ -129,9 +130,29 @@ def r12_1(ctx: Ctx, uni: Set[str]) -> Dict[str, Dict[int, FrozenSet[str]]]:
     ok = "self.power_off" in txt_calls and sets_flag
     ctx.record("R12.1", ctx.key(rs, "reset = is_resetting + power_off"), rs.loc(), ok,
                f"reset calls {txt_calls} and sets is_resetting={sets_flag}")
+    # the flag is up before the shutdown is issued: with a zero shut-down duration the whole shutdown (and the restart it triggers)
+    # happens inside power_off(), which reads the flag
+    grs = CFG(rs.node)
+    flag_nodes = [n for n in grs.nodes if n.kind == "stmt" and isinstance(n.ast, ast.Assign) and any(unparse(t).endswith("is_resetting") for t in n.ast.targets)
+                  and isinstance(n.ast.value, ast.Constant) and n.ast.value.value is True]
+    for n in nodes_calling(grs, ["power_off"]):
+        p = grs.path_avoiding([n], lambda e: False, blocked_nodes={x.id for x in flag_nodes})
+        ctx.record("R12.1", ctx.key(rs, "the reset flag is set before power_off is called"), rs.loc(n.ast), p is None,
+                   "is_resetting = True precedes power_off() on every path" if p is None else
+                   "power_off() can run before the reset flag is set: a shutdown that completes at once finds no reset pending", path_text(p))
     at = ix.method("Node.apply_timestep")
     g = CFG(at.node)
     pon = [n for n in nodes_calling(g, ["power_on"])]
+    # the restart of a reset comes after everything the shutdown does: nothing of the shutdown (stopping the software, the OFF
+    # store) may run after the automatic power_on - with a zero start-up duration the node is ON again by then
+    for f2, g2 in ((at, g), (ix.method("Node.power_off"), CFG(ix.method("Node.power_off").node))):
+        for n in nodes_calling(g2, ["power_on"]):
+            late = nodes_calling(g2, ["_shut_down_actions"]) + [x for x in g2.nodes if x.kind == "stmt" and isinstance(x.ast, ast.Assign) and any(
+                unparse(t) == "self.operating_state" for t in x.ast.targets) and unparse(x.ast.value).endswith(".OFF")]
+            p = g2.path_avoiding(late, lambda e: False, start=n) if late else None
+            ctx.record("R12.1", ctx.key(f2, "nothing of the shutdown runs after the automatic restart"), f2.loc(n.ast), p is None,
+                       "power_on() of a reset is the last thing the completed shutdown does" if p is None else
+                       "shutdown work (stopping the software / the OFF store) can run after the restart was issued", path_text(p))
     flow = flows["apply_timestep"]
     okp = bool(pon)
     for n in pon:
@@ -482,3 +503,10 @@ def check(ctx: Ctx) -> None:
     r12_5(ctx, uni, flows)
     r12_6(ctx)
     r12_7(ctx, uni)
+    # "when the node returns to ON its services and applications come back up": the bulk start-up calls start()/run(), which must
+    # not refuse stopped software for any reason but the node's power - C13's R13.7
+    from . import c13
+    svc = set(ctx.ix.enum_members(ctx.ix.cls("ServiceOperatingState")))
+    app = set(ctx.ix.enum_members(ctx.ix.cls("ApplicationOperatingState")))
+    with ctx.borrowed({"R13.7": "R12.8"}):
+        c13.r13_7(ctx, svc, app)
